@@ -60,7 +60,7 @@ P = {
          "net/http cookie sanitising and strconv semantics trusted."),
 }
 
-CLAIMED = ["C01", "C02", "C03", "C04", "C05", "C07", "C08", "C09", "C10", "C11", "C12", "C13", "C14", "C15", "C16", "C17", "C18"]
+CLAIMED = ["C01", "C02", "C03", "C04", "C05", "C06", "C07", "C08", "C09", "C10", "C11", "C12", "C13", "C14", "C15", "C16", "C17", "C18"]
 
 def main():
     checks = []
